@@ -467,7 +467,6 @@ class World:
         raise EffectsError(f'{self.repo}:0 effect analysis did not reach a fixpoint in 40 passes')
 
 
-RANK = {'global': 3, 'param': 2, 'self': 1}
 
 
 class Env:
@@ -1005,6 +1004,7 @@ class Analyzer:
                 init = w.func_by_pkgpath.get(path + '.__init__')
                 if init is not None:
                     f.calls.add(init.qual)
+                    return self.construct_known(e, init, pos, kws, star)
                 return fresh_result()
             if path.startswith('builtins.') and path[9:] in FRESH_BUILTINS:
                 return fresh_result()
@@ -1032,14 +1032,17 @@ class Analyzer:
         callee = self.ev(fn, env)
         if isinstance(fn, ast.Name):
             # a local def / lambda bound to a name: record the call edge
-            for g in w.funcs:
-                if g.parent is f and g.name == fn.id:
-                    f.calls.add(g.qual)
+            anc = f
+            while anc is not None:
+                for g in w.funcs:
+                    if g.parent is anc and g.name == fn.id:
+                        f.calls.add(g.qual)
+                anc = anc.parent
         return unknown_result(w.closure(callee))
 
-    def call_known(self, e, g, pos, kws, star):
-        """result of calling function g of the six modules, from g's return summary"""
-        w = self.w
+    def actuals(self, g, pos, kws, star, shift=0):
+        """-> function k |-> tags of the actual argument bound to parameter k of g (`shift`=1: g is an
+        `__init__` called through its class, parameter 0 is the new object)"""
         everything = set()
         for v in pos:
             everything |= v
@@ -1049,19 +1052,28 @@ class Analyzer:
         def actual(k):
             if star:
                 return everything
-            if k < len(pos) and k < g.n_positional:
-                return pos[k]
+            j = k - shift
+            if j < 0:
+                return set()
+            if j < len(pos) and k < g.n_positional:
+                return pos[j]
             nm = g.params[k] if k < len(g.params) else None
             if nm in kws:
                 return kws[nm]
             if g.node.args.vararg is not None and nm == g.node.args.vararg.arg:
                 out = set()
-                for v in pos[g.n_positional:]:
+                for v in pos[max(g.n_positional - shift, 0):]:
                     out |= v
                 return out
             if g.node.args.kwarg is not None and nm == g.node.args.kwarg.arg:
                 return everything
             return set()    # default value: evaluated in g's own module, never the caller's object
+        return actual
+
+    def call_known(self, e, g, pos, kws, star):
+        """result of calling function g of the six modules, from g's return summary"""
+        w = self.w
+        actual = self.actuals(g, pos, kws, star)
         s = self.site(e, 'call')
         obj, deep = {s}, set()
         for t in w.closure(g.ret):
@@ -1078,6 +1090,26 @@ class Analyzer:
                     obj.add(t)
         w.grow(w.contents(s), deep)
         return obj
+
+    def construct_known(self, e, init, pos, kws, star):
+        """result of `C(args)` for a class C of the six modules with its own `__init__`: a fresh object whose
+        attribute `a` holds what `__init__` stored in `self.a`, with `__init__`'s parameters replaced by the
+        actual arguments"""
+        w = self.w
+        actual = self.actuals(init, pos, kws, star, shift=1)
+        s = self.site(e, 'call')
+        w.contents(s)
+        for fld, c in list(w.site_contents.get(init.selfsite, {}).items()):
+            out = set()
+            for t in c:
+                if t == init.selfsite:
+                    out.add(s)
+                elif t[0] == 'param' and t[1] == init.qual:
+                    out |= actual(t[2])
+                else:
+                    out.add(t)       # globals, and allocation sites inside __init__ (shared by all instances)
+            w.grow(w.contents(s, fld), out)
+        return {s}
 
 
 # ------------------------------------------------------------------------------------------------
